@@ -1373,10 +1373,20 @@ func c12RepoFiles(c *Ctx, t *c12Types) {
 		}
 		c.Emit("c12.holds.same_graph", t.table(tys)+" "+c12DumpInstance(a)+" "+c12DumpInstance(b), "true")
 		if c.Tier == "thorough" {
-			a1, a2 := c12Artifacts(a), c12Artifacts(b)
+			// the property speaks about producers that are deterministic functions of their inputs: a producer whose
+			// artifact differs between two loads of the SAME bytes (noise textures seeded from math/rand) is skipped
+			twin := &generator.App{}
+			c12Instance(twin)
+			twin.ApplySchema(data)
+			a1, a1twin, a2 := c12Artifacts(a), c12Artifacts(twin), c12Artifacts(b)
 			names := make([]string, 0)
 			for k := range a1 {
-				names = append(names, k)
+				if a1[k] == a1twin[k] {
+					names = append(names, k)
+					c.Note("repo-artifact.deterministic")
+				} else {
+					c.Note("repo-artifact.nondeterministic-skipped")
+				}
 			}
 			sort.Strings(names)
 			parts := []string{strconv.Itoa(len(names))}
